@@ -121,6 +121,14 @@ class Env:
             out += hashlib.sha256(self.seed + self.ctr.to_bytes(8, 'big')).digest()
         return out[:n]
 
+    def plain(self, n):
+        """deterministic bytes that bypass the hook (private DH values of the concrete worlds)"""
+        out = b''
+        while len(out) < n:
+            self.ctr += 1
+            out += hashlib.sha256(b'dh' + self.seed + self.ctr.to_bytes(8, 'big')).digest()
+        return out[:n]
+
     def time(self):
         return self.now
 
@@ -133,6 +141,47 @@ class Env:
         if self.randint_hook is not None:
             return self.randint_hook(a, b)
         return a
+
+
+class _DetEc:
+    """cryptography's `ec` module with a deterministic private-key generator: counterexamples that depend on derived keys replay identically in
+    another process (the library draws from OpenSSL's generator, which os.urandom does not control)"""
+
+    def __init__(self, real):
+        self._real = real
+
+    def __getattr__(self, name):
+        return getattr(self._real, name)
+
+    def generate_private_key(self, curve, backend=None):
+        n = int.from_bytes(ENV.plain(curve.key_size // 8 + 8), 'big')
+        return self._real.derive_private_key(n % ((1 << (curve.key_size - 1)) - 1) + 1, curve)
+
+
+class _DetPN:
+    def __init__(self, real_mod, p, g):
+        self._mod, self._real, self.p, self.g = real_mod, real_mod.DHParameterNumbers(p, g), p, g
+
+    def parameters(self, backend=None):
+        return self
+
+    def generate_private_key(self):
+        x = int.from_bytes(ENV.plain(32), 'big') + 2
+        return self._mod.DHPrivateNumbers(x, self._mod.DHPublicNumbers(pow(self.g, x, self.p), self._real)).private_key()
+
+
+class _DetDh:
+    def __init__(self, real):
+        self._real = real
+
+    def __getattr__(self, name):
+        return getattr(self._real, name)
+
+    def DHParameterNumbers(self, p, g, q=None):
+        return _DetPN(self._real, p, g)
+
+    def DHPublicNumbers(self, y, pn):
+        return self._real.DHPublicNumbers(y, pn._real if isinstance(pn, _DetPN) else pn)
 
 
 class _SysRandom:
@@ -156,6 +205,9 @@ def install_env(mods):
     for name in ('ikesa', 'message', 'crypto', 'ikesacontroller'):
         if name in mods:
             mods[name].os = fake_os
+    if 'crypto' in mods and not isinstance(getattr(mods['crypto'], 'ec', None), _DetEc):
+        mods['crypto'].ec = _DetEc(mods['crypto'].ec)
+        mods['crypto'].dh = _DetDh(mods['crypto'].dh)
     mods['ikesa'].time = fake_time
     mods['ikesa'].random = fake_random
     mods['xfrm'].random = fake_random
